@@ -110,7 +110,7 @@ Qed.
 
 (* ptr.updateAccumulation on the node of level J that lists ck: the entry is replaced, every level above gets its sums
    refreshed, nothing else changes *)
-Lemma update_acc_spec : forall m d fuel st J H l1 k n l2 b ck a,
+Lemma update_acc_spec : forall m d fuel st J H (l1 : al node) (k : key) (n : node) (l2 : al node) b (ck : key) (a : Z),
   (H - J = d)%nat -> (1 <= J <= H)%nat -> (d + 2 <= fuel)%nat ->
   Upper m st J H -> (b = true -> k = []) ->
   nodes_at st J = l1 ++ (k, n) :: l2 -> In ck (akeys n) ->
